@@ -199,15 +199,18 @@ def check_batch(batch, stats):
 
 
 def replay(case):
-    if case.get('kind') == 'load':
-        node()
-        return
-    if isinstance(case, list):
-        for c in case:
-            replay(c)
-        return
-    r = node().ask([case])[0]
-    compare(case, r)
+    global _node
+    try:
+        if case.get('kind') == 'load' if isinstance(case, dict) else False:
+            node()
+            return
+        for c in (case if isinstance(case, list) else [case]):
+            r = node().ask([c])[0]
+            compare(c, r)
+    finally:
+        if _node is not None:  # never leave a node process open in the parent: forked workers would share its pipes
+            _node.close()
+            _node = None
 
 
 def shards(tier):
@@ -237,6 +240,12 @@ def run_shard(kind, n, seed, tier):
     except Violation as v:
         s.violation(v)
     finally:
-        if _node is not None:
-            _node.close()
+        _close_node()
     return s
+
+
+def _close_node():
+    global _node
+    if _node is not None:
+        _node.close()
+        _node = None
